@@ -2,10 +2,10 @@ package props
 
 import (
 	"fmt"
-	"strings"
 	"math/bits"
 	"os"
 	"path/filepath"
+	"strings"
 
 	"verifharness/client"
 	"verifharness/core"
